@@ -129,7 +129,10 @@ def check_elementwise(c, rec):
             want, wgrad = np.asarray(per.mean()), g64[0] * dper / per.size
             g = g[:1].reshape(())
         ctx += f" y={c['y']} reduction={red}"
-    _check_close(f"{op} forward", out.data, want, scale, ctx)
+        # single precision relative to the magnitude of what is summed: the per-element terms reach |x| * |y| (targets
+        # outside [0, 1] exceed |x|), and a sum / mean over n terms is accurate relative to the sum of their magnitudes
+        fscale = max(scale, float(np.abs(per).max()), float(np.abs(per).sum()) / (per.size if red == "mean" else 1) if red in ("sum", "mean") else 0.0)
+    _check_close(f"{op} forward", out.data, want, fscale if op == "bce_logits" else scale, ctx)
     try:
         out.backward(Tensor(np.array(g, dtype=dt).reshape(out.shape)))
     except Exception as e:  # noqa: BLE001
